@@ -297,10 +297,25 @@ def _fn(name, a):
         if n == "ABS":
             return abs(x)
         if n == "INT":
+            # INT and MOD jump at whole numbers / multiples: an argument that sits on the jump up to rounding
+            # (INT(.1**(-1)): 9.999999999999999 in double precision, 10 in exact arithmetic) has no meaning that a
+            # comparison to 1e-9 could decide - the point is not compared (a random perturbation probe sees the jump
+            # only for one sign of the perturbation)
+            try:
+                if x != 0 and abs(x - round(float(x))) <= 1e-9 * max(1.0, abs(float(x))) and float(x) != round(float(x)):
+                    raise RefError("INT at a jump")
+            except (TypeError, ValueError, OverflowError):
+                pass
             return CTX.trunc(x)
         if n == "MOD":
             if a[1] == 0:
                 raise RefError("mod0")
+            try:
+                q = float(x) / float(a[1])
+                if q != 0 and abs(q - round(q)) <= 1e-9 * max(1.0, abs(q)) and q != round(q):
+                    raise RefError("MOD at a jump")
+            except (TypeError, ValueError, OverflowError, ZeroDivisionError):
+                pass
             return CTX.fmod(x, a[1])
         if n == "GAMLN":
             if x <= 0:
